@@ -126,6 +126,17 @@ pub fn et_from(s: &str) -> EType {
     }
 }
 
+/// The abstract JSON diagram from plain parts (hook H4 hands out vertices and edges, not a graph); scalar 1.
+pub fn abs_parts(verts: &[(V, VType, Phase)], edges: &[(V, V, EType)], ins: &[V], outs: &[V]) -> Value {
+    let mut vs = verts.to_vec();
+    vs.sort_by_key(|x| x.0);
+    let v: Vec<Value> = vs.iter().map(|&(x, ty, ph)| json!({"id": x, "ty": ty_str(ty), "ph": phase_json(ph), "vars": [], "vc": false})).collect();
+    let mut es: Vec<(V, V, EType)> = edges.iter().map(|&(a, b, t)| if a <= b { (a, b, t) } else { (b, a, t) }).collect();
+    es.sort();
+    let e: Vec<Value> = es.iter().map(|&(a, b, t)| json!({"u": a, "w": b, "t": et_str(t)})).collect();
+    json!({"v": v, "e": e, "ins": ins, "outs": outs, "sc": [1, 0, 0, 0, 0], "sca": false, "sf": []})
+}
+
 /// Project a graph to the abstract JSON diagram.
 pub fn abs(g: &impl GraphLike) -> Value {
     let mut vs: Vec<V> = g.vertices().collect();
